@@ -1649,3 +1649,25 @@ Definition rk_ok : list (str * nat) := [(sPet, 2%nat); (sAnimal, 1%nat); (sKind,
 Example static_guard_nonvacuous :
   core_spec spec_ok = true /\ ranked_b rk_ok spec_ok = true /\ depth_ok rk_ok spec_ok default_max_depth = true.
 Proof. vm_compute. repeat split. Qed.
+
+(* the tightening idiom through two allOf levels: Base{ident!, label, owner}, StrictBase = allOf[$ref Base, {required:[label,owner]}],
+   Leaf = allOf[$ref StrictBase, {note}]; a branch without properties is the node Obj [] req *)
+Definition sBase : str := [66;97;115;101].
+Definition sStrictBase : str := [83;116;114;105;99;116;66;97;115;101].
+Definition sLeaf : str := [76;101;97;102].
+Definition sAccount : str := [65;99;99;111;117;110;116].
+Definition sowner : str := [111;119;110;101;114].
+Definition snote : str := [110;111;116;101].
+Definition sname : str := [110;97;109;101].
+Definition spec_strict : spec :=
+  [(sLeaf, AllOf [Ref sStrictBase; Obj [(snote, Prim PString)] []]);
+   (sStrictBase, AllOf [Ref sBase; Obj [] [slabel; sowner]]);
+   (sBase, Obj [(sident, Prim PInteger); (slabel, Prim PString); (sowner, Ref sAccount)] [sident]);
+   (sAccount, Obj [(sname, Prim PString)] [])].
+Definition rk_strict : list (str * nat) := [(sLeaf, 3%nat); (sStrictBase, 2%nat); (sBase, 1%nat); (sAccount, O)].
+Example required_only_branch :
+  (core_spec spec_strict = true /\ ranked_b rk_strict spec_strict = true /\ depth_ok rk_strict spec_strict default_max_depth = true)
+  /\ model_fields (parse_doc default_max_depth spec_strict) sLeaf
+     = Some [(sident, true, TPrim PInteger); (slabel, true, TPrim PString); (sowner, true, TRef sAccount); (snote, false, TPrim PString)]
+  /\ declared spec_strict sLeaf = model_fields (parse_doc default_max_depth spec_strict) sLeaf.
+Proof. vm_compute. repeat split. Qed.
